@@ -8,7 +8,7 @@ OPS = "K<i>=clone handle i, D<i>=drop handle i, E<i>=handle i .entered() (owned 
 
 def _skeletons():
     hs = []
-    for n, tier in ((1, "quick"), (2, "quick"), (3, "quick"), (4, "thorough")):
+    for n, tier in ((1, "quick"), (2, "quick"), (3, "quick"), (4, "thorough"), (5, "thorough")):
         for seq in gen_c03.skeletons(n, n):
             hs.append(H("gen_c03::c03_sk_" + gen_c03.name(seq), tier=tier,
                         desc="handle/guard program %s (%s) on one span under a foreign default: call ledger after every step and at quiescence" % (" ".join(seq), OPS),
@@ -37,7 +37,7 @@ SPEC = {
                   "EnteredSpan::{exit, drop}, Entered::drop, Inner::{clone, follows_from, record}", "tracing::instrument::{Instrumented::poll, PinnedDrop for Instrumented}",
                   "tracing_core::dispatch::{get_default, Dispatch::{clone_span, try_close, enter, exit, current_span}}"],
     "sym": SYM,
-    "bounds": "all handle/guard programs of <= 3 (quick) / <= 4 (thorough) operations over <= 3 live handles+guards of one span (exhaustive for the length), plus 10 hand-written shapes (drop orders, cross-thread, disabled spans, parent/child/root, current capture, instrumented futures ready after <= 2 polls)",
+    "bounds": "all handle/guard programs of <= 3 (quick) / <= 5 (thorough) operations over <= 3 live handles+guards of one span (exhaustive for the length), plus 10 hand-written shapes (drop orders, cross-thread, disabled spans, parent/child/root, current capture, instrumented futures ready after <= 2 polls)",
     "outside": "handles used concurrently from real threads; tracing-futures combinators; programs longer than the harnessed shapes; span!-macro construction (C01/C10)",
     "stubs": ["std::rt::thread_cleanup -> no-op", "core::fmt::write -> Ok(())", "H1 simulated threads", "unregistered Dispatch constructor"],
     "assumptions": ["the recording collector never closes a span (try_close returns false); ledger counts calls"],
